@@ -49,9 +49,21 @@ func (c *V1) String() string {
 	return "v1(" + c.prefix + ")[" + strings.Join(names, ", ") + "]"
 }
 
+// controllers lists the controllers of the group, whether their directories
+// were created by this handle (c.all, what Destroy removes) or found
+func (c *V1) controllers() []*v1controller {
+	rt := make([]*v1controller, 0, numberOfControllers)
+	for _, v := range []*v1controller{c.cpu, c.cpuset, c.cpuacct, c.memory, c.pids} {
+		if v != nil {
+			rt = append(rt, v)
+		}
+	}
+	return rt
+}
+
 // AddProc writes cgroup.procs to all controller
 func (c *V1) AddProc(pids ...int) error {
-	for _, s := range c.all {
+	for _, s := range c.controllers() {
 		if err := s.AddProc(pids...); err != nil {
 			return err
 		}
@@ -61,10 +73,11 @@ func (c *V1) AddProc(pids ...int) error {
 
 // Processes lists all existing process pid from the cgroup
 func (c *V1) Processes() ([]int, error) {
-	if len(c.all) == 0 {
+	all := c.controllers()
+	if len(all) == 0 {
 		return nil, os.ErrInvalid
 	}
-	return ReadProcesses(filepath.Join(c.all[0].path, cgroupProcs))
+	return ReadProcesses(filepath.Join(all[0].path, cgroupProcs))
 }
 
 // New creates a sub-cgroup based on the existing one
